@@ -372,7 +372,20 @@ def conformance_cases(ctx, prop, fmt, rows):
 
 # ---------------------------------------------------------------- C05
 
+IMPL_CBOR_ALPHABET = {0, 24, 25, 27, 32, 57, 59, 66, 88, 97, 120, 128, 129, 130, 152, 159, 161, 191, 192, 244, 250, 255}
+IMPL_CBOR_INVS = ["ErrorIffStuck", "EventsRefine", "NoEventBeyondStuck", "FinalizeIffBetween", "StacksAbstract", "IdleDepths", "LengthStackSound"]
+
+
+def impl_cbor_model(ctx):
+    """The code-shaped model of the cborl push parser refines the reference automaton: every byte string up to MaxLen over
+    the boundary alphabet under EVERY chunking (MCImplCborParser). The same operators are replayed call by call over the
+    recorded Write histories by TraceCodec!ImplDrift."""
+    core.tlc_model_check(ctx, "MCImplCborParser", dict(Alphabet=IMPL_CBOR_ALPHABET, MaxLen=4 if ctx.quick else 5, MaxChunk=4 if ctx.quick else 5),
+                         IMPL_CBOR_INVS, "MCImplCborParser", workers=8)
+
+
 def c05(ctx):
+    impl_cbor_model(ctx)
     rows = gen_cbor(ctx, "lang")
     cases = conformance_cases(ctx, "C05", "cborl", rows)
     number(cases)
@@ -655,6 +668,8 @@ def c03(ctx):
 def c02(ctx):
     rnd = ctx.rng
     cases = []
+    # the chunking quantifier on the model: the code-shaped cborl parser under EVERY chunking of every short input
+    impl_cbor_model(ctx)
     nsched = 0
     maxall = 10 if ctx.quick else 12
     per_fmt = 400 if ctx.quick else 2500
